@@ -578,6 +578,31 @@ def C05_climbing_out_of_and_back_into_the_root_bypasses_rules():
         return allowed and served.status == 20 and "ADMIN-SECRET" in (served.body or "")
     finally: shutil.rmtree(d)
 
+@witness
+def C19_normalized_request_line_exceeds_the_limit():
+    """A 1022-byte URL without a path passes validate_url, but its normalized form (trailing '/' added) is 1023 bytes:
+    the client puts a 1025-byte request on the wire, which every server must refuse."""
+    from nauyaca.client.session import GeminiClient
+    url = "gemini://" + "a" * (1022 - len("gemini://"))
+    c = GeminiClient(trust_on_first_use=False, timeout=1)
+    sent = []
+    async def go():
+        loop = asyncio.get_running_loop()
+        async def fake_cc(factory, host=None, port=None, ssl=None, server_hostname=None, **kw):
+            proto = factory(); tr = _RecTransport(); proto.connection_made(tr); sent.append(b"".join(tr.written))
+            loop.call_soon(lambda: (proto.data_received(b"59 too long\r\n"), proto.connection_lost(None)))
+            return tr, proto
+        loop.create_connection = fake_cc
+        try:
+            await c.get(url)
+        except ValueError:
+            return "refused-by-client"
+        finally:
+            del loop.create_connection
+        return "sent"
+    r = asyncio.run(go())
+    return r == "sent" and len(sent[0]) > 1024
+
 # MAIN
 if __name__ == "__main__":
     names = sys.argv[1:] or sorted(W)
